@@ -89,47 +89,97 @@ fn cstr(b: Vec<u8>) -> CString {
     CString::new(b).expect("no NUL in chars")
 }
 
+/// one request described by the words of a single-call case line without its c0
+fn call(px: &DriverProxy, a: &[&str]) -> Result<i64, AeronError> {
+    match a[0] {
+        "addpub" => {
+            let (excl, stream, ch) = (p(a[1]) != 0, p(a[2]) as i32, chars(p(a[3]), p(a[4])));
+            if excl { px.add_exclusive_publication(cstr(ch), stream) } else { px.add_publication(cstr(ch), stream) }
+        },
+        "addsub" => px.add_subscription(cstr(chars(p(a[2]), p(a[3]))), p(a[1]) as i32),
+        "remove" => {
+            let (k, reg) = (p(a[1]), p(a[2]));
+            match k {
+                0 => px.remove_publication(reg),
+                1 => px.remove_subscription(reg),
+                _ => px.remove_counter(reg),
+            }
+        },
+        "dest" => {
+            let (k, reg, ch) = (p(a[1]), p(a[2]), chars(p(a[3]), p(a[4])));
+            match k {
+                0 => px.add_destination(reg, cstr(ch)),
+                1 => px.remove_destination(reg, cstr(ch)),
+                2 => px.add_rcv_destination(reg, cstr(ch)),
+                _ => px.remove_rcv_destination(reg, cstr(ch)),
+            }
+        },
+        "counter" => {
+            let (ty, key, label) = (p(a[1]) as i32, payload(p(a[2]), p(a[3]) as usize), chars(p(a[4]), p(a[5])));
+            px.add_counter(ty, &key, cstr(label))
+        },
+        "keepalive" => px.send_client_keepalive().map(|_| 0),
+        "close" => px.client_close(),
+        "terminate" => px.terminate_driver(&payload(p(a[1]), p(a[2]) as usize)).map(|_| 0),
+        other => panic!("unknown case kind {}", other),
+    }
+}
+
+/// seq <c0> <data capacity> op ; op ; ...   op = a request (words as above) | drain <limit>
+/// -> ([Call (result) | Drained [records] ...], tail, head, next correlation id)
+fn run_seq(c0: i64, cap: i32, ops: &str) -> String {
+    let mem = AlignedBuffer::with_capacity(cap + ring_buffer::TRAILER_LENGTH);
+    let buf = AtomicBuffer::from_aligned(&mem);
+    buf.put::<i64>(cap + ring_buffer::CORRELATION_COUNTER_OFFSET, c0);
+    let ring = Arc::new(ManyToOneRingBuffer::new(buf).expect("ring"));
+    let proxy = DriverProxy::new(ring.clone());
+    let mut steps: Vec<String> = Vec::new();
+    for op in ops.split(';') {
+        let a: Vec<&str> = op.split_whitespace().collect();
+        if a.is_empty() {
+            continue;
+        }
+        if a[0] == "drain" {
+            let mut delivered: Vec<(i32, Vec<u8>)> = Vec::new();
+            let limit = p(a[1]) as i32;
+            let rd = catch(|| {
+                ring.read(
+                    |cmd, b| {
+                        let mut body = vec![0u8; b.capacity() as usize];
+                        for (i, x) in body.iter_mut().enumerate() {
+                            *x = b.get::<u8>(i as i32);
+                        }
+                        delivered.push((cmd as i32, body));
+                    },
+                    limit,
+                )
+            });
+            steps.push(if rd.is_ok() { format!("Drained {}", fmt_records(&delivered)) } else { "Drained [(0, [])]".to_string() });
+        } else {
+            let res = catch(|| call(&proxy, &a));
+            steps.push(match res {
+                Ok(Ok(v)) => format!("Call (Ok ({}))", v),
+                Ok(Err(e)) => format!("Call (Err {})", vcommon::err_name(&e)),
+                Err(()) => "Call Panic".to_string(),
+            });
+        }
+    }
+    let tail = buf.get::<i64>(cap + ring_buffer::TAIL_POSITION_OFFSET);
+    let head = buf.get::<i64>(cap + ring_buffer::HEAD_POSITION_OFFSET);
+    let next = buf.get::<i64>(cap + ring_buffer::CORRELATION_COUNTER_OFFSET);
+    format!("([{}], {}, {}, {})", steps.join("; "), tail, head, next)
+}
+
 fn main() {
     vcommon::run_lines(|line| {
         let a: Vec<&str> = line.split_whitespace().collect();
         let c0 = p(a[1]);
-        match a[0] {
-            "addpub" => {
-                let (excl, stream, ch) = (p(a[2]) != 0, p(a[3]) as i32, chars(p(a[4]), p(a[5])));
-                run(c0, |px| if excl { px.add_exclusive_publication(cstr(ch), stream) } else { px.add_publication(cstr(ch), stream) })
-            },
-            "addsub" => {
-                let (stream, ch) = (p(a[2]) as i32, chars(p(a[3]), p(a[4])));
-                run(c0, |px| px.add_subscription(cstr(ch), stream))
-            },
-            "remove" => {
-                let (k, reg) = (p(a[2]), p(a[3]));
-                run(c0, |px| match k {
-                    0 => px.remove_publication(reg),
-                    1 => px.remove_subscription(reg),
-                    _ => px.remove_counter(reg),
-                })
-            },
-            "dest" => {
-                let (k, reg, ch) = (p(a[2]), p(a[3]), chars(p(a[4]), p(a[5])));
-                run(c0, |px| match k {
-                    0 => px.add_destination(reg, cstr(ch)),
-                    1 => px.remove_destination(reg, cstr(ch)),
-                    2 => px.add_rcv_destination(reg, cstr(ch)),
-                    _ => px.remove_rcv_destination(reg, cstr(ch)),
-                })
-            },
-            "counter" => {
-                let (ty, key, label) = (p(a[2]) as i32, payload(p(a[3]), p(a[4]) as usize), chars(p(a[5]), p(a[6])));
-                run(c0, |px| px.add_counter(ty, &key, cstr(label)))
-            },
-            "keepalive" => run(c0, |px| px.send_client_keepalive().map(|_| 0)),
-            "close" => run(c0, |px| px.client_close()),
-            "terminate" => {
-                let tok = payload(p(a[2]), p(a[3]) as usize);
-                run(c0, |px| px.terminate_driver(&tok).map(|_| 0))
-            },
-            other => panic!("unknown case kind {}", other),
+        if a[0] == "seq" {
+            let rest = line.splitn(4, char::is_whitespace).nth(3).unwrap_or("");
+            return run_seq(c0, p(a[2]) as i32, rest);
         }
+        let mut words: Vec<&str> = vec![a[0]];
+        words.extend_from_slice(&a[2..]);
+        run(c0, |px| call(px, &words))
     });
 }
